@@ -25,17 +25,29 @@ class Scheduler:
         self._registered = False
 
     # -- instrumentation ------------------------------------------------------------------------
-    def instrument(self, code_objects):
+    def instrument(self, code_objects, instruction_codes=()):
+        """LINE events on code_objects; INSTRUCTION events (every bytecode is a scheduling point) on instruction_codes."""
         if not self._registered:
             try:
                 _mon.use_tool_id(TOOL, "mc-sched")
             except ValueError:
                 pass
             _mon.register_callback(TOOL, _E.LINE, self._on_line)
+            _mon.register_callback(TOOL, _E.INSTRUCTION, self._on_instruction)
             self._registered = True
+        fine = set(instruction_codes)
         for c in code_objects:
-            _mon.set_local_events(TOOL, c, _E.LINE)
+            _mon.set_local_events(TOOL, c, _E.INSTRUCTION if c in fine else _E.LINE)
         self.codes = list(code_objects)
+        self.mode = "instruction" if fine else "line"
+
+    def _on_instruction(self, code, offset):
+        if not self.active:
+            return
+        idx = getattr(self._tls, "idx", None)
+        if idx is None:
+            return
+        self._point(idx, code, -offset - 1)
 
     def uninstrument(self):
         for c in self.codes:
